@@ -44,6 +44,7 @@ PY
 done
 git checkout --ours tools/props.py 2>/dev/null || true
 git checkout --ours MANIFEST.json 2>/dev/null || true
+if git status --short | grep -q '^UU harness/Cargo.toml'; then echo 'NOTE: harness/Cargo.toml conflicted, keeping ours; their dependency section was:'; git show FETCH_HEAD:harness/Cargo.toml | sed -n '/dependencies/,/profile/p'; git checkout --ours harness/Cargo.toml; fi
 # the lock file is regenerated from /repo's lock (offline resolution adds the harness-only crates)
 cp /repo/Cargo.lock harness/Cargo.lock && (cd harness && cargo build --offline 2>&1 | tail -1)
 if grep -rIl '^<<<<<<< \|^>>>>>>> ' --exclude-dir=.git --exclude-dir=target --exclude-dir=work --exclude-dir=build . ; then echo 'conflict markers remain in the files above'; exit 1; fi
